@@ -31,6 +31,15 @@ def area(S, dim, **over):
     return Obj("RefinementObjectExtendSplit", f)
 
 
+def model_to_input_dim(dim):
+    def conv(model):
+        from pyvc import modelparse as mp
+        g = lambda k, d=0: mp.tofloat(mp.num(model.get(k, str(d))))  # noqa
+        return {"kind": "C07.split", "dim": dim, "start": [g("s%d" % k) for k in range(dim)], "end": [g("e%d" % k, 1) for k in range(dim)],
+                "coarsening": g("coarseningValue"), "needExtendScheme": g("needExtendScheme"), "nrbe": g("numberOfRefinementsBeforeExtend", 2)}
+    return conv
+
+
 def wf(o):
     f = o.fields
     d = f["dim"]
@@ -80,6 +89,7 @@ class SplitSingleDim(Contract):
     def __init__(self, dim, d):
         self.dim, self.d = dim, d
         self.label = "RefinementObjectExtendSplit.split_area_single_dim[dim=%d,d=%d]" % (dim, d)
+        self.model_to_input = model_to_input_dim(dim)
 
     def inputs(self, S):
         return {"self": area(S, self.dim), "d": self.d}
@@ -113,6 +123,7 @@ class SplitArbitraryDim(Contract):
     def __init__(self, dim):
         self.dim = dim
         self.label = "RefinementObjectExtendSplit.split_area_arbitrary_dim[dim=%d]" % dim
+        self.model_to_input = model_to_input_dim(dim)
 
     def applies(self, receiver, args):
         return receiver.fields.get("dim") == self.dim
@@ -160,6 +171,7 @@ class RefineExtendSplit(Contract):
     def __init__(self, dim):
         self.dim = dim
         self.label = "RefinementObjectExtendSplit.refine[dim=%d,policy=split-then-extend]" % dim
+        self.model_to_input = model_to_input_dim(dim)
 
     def inputs(self, S):
         return {"self": area(S, self.dim)}
